@@ -74,6 +74,8 @@ def gen_spec(rng, idx, route=None):
         if full[0] >= 64:
             n_s = min(n_s, 24)
         spec.update(shape=[n_il, n_xl, n_s], bits=bits, blockshape=list(bs))
+        if route == 'numpy' and rng.random() < 0.3:
+            spec['hdrs'] = True
         if route != 'numpy':
             spec['fmt'] = rng.choice([1, 5])
             spec['il0'] = rng.choice([1, 1, 100, 2000, -3])      # -3: line numbers cross zero
@@ -150,8 +152,18 @@ def converter_fn(spec, out_path):
     if route == 'numpy':
         data = segygen.cube_data(tuple(spec['shape']), spec['data_seed'])
 
+        kw = {}
+        if spec.get('hdrs'):
+            # caller-supplied trace-header arrays (footer arrays beyond the default inline / crossline ones)
+            n_il, n_xl = spec['shape'][0], spec['shape'][1]
+            i = np.arange(n_il, dtype=np.int32)[:, None]
+            x = np.arange(n_xl, dtype=np.int32)[None, :]
+            kw['trace_headers'] = {segygen.segyio.TraceField.CDP_X: (100000 + 25 * i + 3 * x).astype(np.int32),
+                                   segygen.segyio.TraceField.CDP_Y: (200000 + 7 * i - 25 * x).astype(np.int64),
+                                   segygen.segyio.TraceField.offset: (i * 0 + x + 1).astype(np.int32)}
+
         def fn():
-            with NumpyConverter(data) as c:
+            with NumpyConverter(data, **kw) as c:
                 c.run(out_path, bits_per_voxel=bits, blockshape=bs)
         return fn
 
